@@ -32,6 +32,11 @@ COMMENTS = ['/*c*/', '/**/', '/***/', '/* * / */', '/*\n*/', '/*a\r\nb\rc\u2028d
 KW_SUFFIX = ['x', '_', '$', '1', 'Check', 's', u'\u00e9', 'of', 'In']
 
 
+RESTRICTED = ('return', 'break', 'continue', 'throw')
+AFTER_RESTRICTED = ['/*a\nb*/', ' /*\n*/ ', '\n', '//c\n', '/*1*/ /*2\n*/ /*3*/', ' /* x */\n/* y */ ', '/*a\rb*/\r\n',
+                    ' /*c*/ ', '\n\n', '/*\n*/\n/*\n*/', ' ']
+
+
 def element():
     return st.one_of(
         st.sampled_from(IDENTS).map(lambda s: ('id', s)),
@@ -64,9 +69,16 @@ def soup(draw, max_elems=14):
     prev = None
     for _ in range(n):
         kind, text = draw(element())
+        forced = None
+        if prev is not None and prev.text in RESTRICTED and draw(st.booleans()):
+            # what follows a restricted keyword: layout with the line break in every position, then a
+            # semicolon / operand / operator (the lexer inserts or withholds a semicolon token here)
+            forced = draw(st.sampled_from(AFTER_RESTRICTED))
+            kind, text = draw(st.sampled_from([('p', ';'), ('p', ';'), ('id', 'x'), ('p', '++'), ('str', '"s"'),
+                                               ('p', '}'), ('num', '1')]))
         tk = gp.Tk(text, kind)
         if prev is not None:
-            sep = draw(separator())
+            sep = forced if forced is not None else draw(separator())
             # a separator ending in a line comment must end with a line terminator: all of ours do
             if sep == '' and not gp.can_join(prev, tk):
                 sep = ' '
